@@ -30,6 +30,9 @@ RULE = ("case = (local space out of 19 class/symmetry pairs, MPS|MPO, N in 1..6 
         "normalize drawn per step); distinct = hash of (space, kind, N, start kind, bond sectors, program with options); "
         "non-trivial = at least one gauge step was compared with the dense state")
 ASSUMPTIONS = ["NumPy SVD / norms of dense arrays with <= 4096 elements per side are the truth",
+               "state comparisons allow CT*eps*max(|psi|, |factor| prod_n |A_n|_F): rounding errors follow the norms of the site "
+               "tensors, which exceed |psi| for ill-conditioned (non-canonical) chains; norm(), Schmidt values, entropies and factors "
+               "obtained by sweeping such a chain get the same conditioning factor",
                "the represented state is read by vmon.mpsref.obs_sites (to_numpy of each site tensor with bond legs embedded in "
                "the union of the neighbours' legs + NumPy contraction), cross-checked against to_tensor() when no central block exists",
                "the opposite canonical form required by the error identities is prepared with canonize_ and *verified* by a NumPy "
@@ -187,7 +190,7 @@ class Prog:
             ctx.violation("observation:site-legs-inconsistent", f"start state: {bad}")
             raise Stop
         a = R.obs_tensor(psi, loc)
-        if not ctx.margin("obs:to_tensor-vs-sites", R.maxabs(a - v), CT * R.EPS * max(R.nrm(v), 1e-300)):
+        if not ctx.margin("obs:to_tensor-vs-sites", R.maxabs(a - v), CT * R.EPS * max(R.nrm(v), R.cond_scale(psi), 1e-300)):
             ctx.violation("observation:to_tensor-vs-site-contraction", f"start: to_tensor differs from site contraction by {R.maxabs(a - v):.2e}")
             raise Stop
         if R.nrm(v) < 1e-8:
@@ -210,10 +213,7 @@ class Prog:
     def cond_scale(self):
         """|factor| * prod |A_n|_F: the size of the rounding errors of a step is set by the norms of the tensors, which for a
         non-canonical chain exceed the norm of the state they represent."""
-        out = abs(self.psi.factor)
-        for t in self.psi.A.values():
-            out *= float(t.norm())
-        return out
+        return R.cond_scale(self.psi)
 
     def same_state(self, key, what, obs, keep_norm=True):
         """obs must equal the tracked state (keep_norm) or be a positive multiple of it (direction only)."""
@@ -248,18 +248,18 @@ class Prog:
                 ctx.violation("not-isometric:" + key, f"{what}: site {n} is not an isometry towards '{to}' (defect {dfc:.3e})", self.witness())
                 raise Stop
 
-    def unit_norm(self, key, what, obs):
+    def unit_norm(self, key, what, obs, rel=1.0):
         n1 = R.nrm(obs)
-        if not self.ctx.margin("unit-norm:" + key, abs(n1 - 1.0), ID_TOL):
+        if not self.ctx.margin("unit-norm:" + key, abs(n1 - 1.0), ID_TOL * rel):
             self.ctx.violation("norm-not-one:" + key, f"{what}: normalize=True but the state has norm {n1!r}", self.witness())
             raise Stop
 
-    def factor_is(self, key, what, expected, exact=False):
+    def factor_is(self, key, what, expected, exact=False, rel=1.0):
         f = self.psi.factor
         if exact:
             ok = (f == expected)
         else:
-            ok = self.ctx.margin("factor:" + key, abs(f - expected), ID_TOL * max(abs(expected), 1e-300))
+            ok = self.ctx.margin("factor:" + key, abs(f - expected), ID_TOL * rel * max(abs(expected), 1e-300))
         if not ok:
             self.ctx.violation("factor:" + key, f"{what}: factor is {f!r}, expected {expected!r}", self.witness())
             raise Stop
@@ -276,7 +276,7 @@ class Prog:
         rng, psi, ctx = self.rng, self.psi, self.ctx
         to, nz = rng.choice(("first", "last")), rng.random() < 0.5
         self.steps.append(["canonize_", to, nz])
-        n0 = R.nrm(self.v)
+        n0, cr0 = R.nrm(self.v), self.cond_rel          # conditioning of the representation the sweep starts from
         out = psi.canonize_(to=to, normalize=nz)
         if out is not psi:
             ctx.violation("canonize_:return", "canonize_ does not return self")
@@ -289,10 +289,10 @@ class Prog:
         self.same_state("canonize_", what, obs, keep_norm=not nz)
         self.isometry("canonize_", what, range(self.N), to)
         if nz:
-            self.unit_norm("canonize_", what, obs)
+            self.unit_norm("canonize_", what, obs, rel=cr0)
             self.factor_is("canonize_:normalize", what, 1, exact=True)
         else:
-            self.factor_is("canonize_", what, n0)
+            self.factor_is("canonize_", what, n0, rel=cr0)
         if not psi.is_canonical(to=to, tol=1e-10):
             ctx.violation("is_canonical-disagrees", f"{what}: NumPy finds every site isometric but is_canonical(to={to}) is False", self.witness())
         ctx.count("is_canonical_checked")
@@ -370,7 +370,7 @@ class Prog:
         to, nz = rng.choice(("first", "last")), rng.random() < 0.5
         opts = dict(rng.choice(NONBINDING))
         self.steps.append(["truncate_", to, opts, nz])
-        n0 = R.nrm(self.v)
+        n0, cr0 = R.nrm(self.v), self.cond_rel
         dl = psi.truncate_(to=to, opts_svd=opts, normalize=nz)
         self.count_step("truncate_nonbinding", nz)
         what = f"truncate_(to={to}, {opts}, normalize={nz})"
@@ -384,19 +384,19 @@ class Prog:
         if not ctx.margin("discarded:nonbinding", abs(dl), 1e-9):
             ctx.violation("discarded-weight:nonbinding:truncate_", f"{what}: returned {dl}", self.witness())
         if nz:
-            self.unit_norm("truncate_", what, obs)
+            self.unit_norm("truncate_", what, obs, rel=cr0)
             self.factor_is("truncate_:normalize", what, 1, exact=True)
         else:
-            self.factor_is("truncate_", what, n0)
+            self.factor_is("truncate_", what, n0, rel=cr0)
 
     def step_observers(self):
         """norm(), get_Schmidt_values(), get_entropy(alpha): compared with the dense state; the object must not move."""
         rng, psi, ctx, loc, N = self.rng, self.psi, self.ctx, self.loc, self.N
         self.steps.append(["observers"])
-        n0 = R.nrm(self.v)
+        n0, cr0 = R.nrm(self.v), self.cond_rel
         nrm = psi.norm()
         ctx.count("norm_compared")
-        if not ctx.margin("norm", abs(nrm - n0), ID_TOL * n0):
+        if not ctx.margin("norm", abs(nrm - n0), ID_TOL * cr0 * n0):
             ctx.violation("norm-value", f"norm() = {nrm!r}, dense norm {n0!r}", self.witness())
             raise Stop
         sv = psi.get_Schmidt_values()
@@ -423,7 +423,7 @@ class Prog:
                 ctx.count("rank_deficient_cuts")
             if len(spec) > 1 and np.any(np.abs(np.diff(spec[spec > 1e-9])) < 1e-12):
                 ctx.count("tie_cuts")
-            if not ctx.margin("schmidt", err, ID_TOL):
+            if not ctx.margin("schmidt", err, ID_TOL * cr0):
                 ctx.violation("schmidt-values", f"cut {cut}: Schmidt values {got[:6]} vs dense SVD {spec[:6]} (max diff {err:.3e})", self.witness())
                 raise Stop
         alpha = rng.choice((1, 1, 2, 0.5, 3))
@@ -437,7 +437,7 @@ class Prog:
                 ctx.count("entropy_skipped_near_cutoff")
                 continue
             ctx.count("entropies_compared")
-            if not ctx.margin("entropy", abs(float(ent[cut]) - ref), 1e-11):
+            if not ctx.margin("entropy", abs(float(ent[cut]) - ref), 1e-11 * cr0):
                 ctx.violation("entropy-value", f"cut {cut}, alpha={alpha}: get_entropy {float(ent[cut])!r} vs dense {ref!r}", self.witness())
                 raise Stop
         self.count_step("observers", gauge=False)
@@ -650,7 +650,8 @@ class Prog:
         if self.psi.pC is None:
             a = R.obs_tensor(self.psi, self.loc)
             self.ctx.count("final_to_tensor_crosschecks")
-            if not self.ctx.margin("obs:to_tensor-vs-sites", R.maxabs(a - self.v), CT * R.EPS * max(R.nrm(self.v), 1e-300)):
+            if not self.ctx.margin("obs:to_tensor-vs-sites", R.maxabs(a - self.v),
+                                   CT * R.EPS * max(R.nrm(self.v), self.cond_scale(), 1e-300)):
                 self.ctx.violation("observation:to_tensor-vs-site-contraction", "end of program: to_tensor differs from the site contraction",
                                    self.witness())
 
